@@ -377,7 +377,7 @@ func genTf(r *rand.Rand) *TfConfig {
 			continue
 		}
 		used[name] = true
-		typ := pick(r, []string{"string", "number", "list(string)", "object({ a = string })", ""})
+		typ := pick(r, []string{"string", "number", "list(string)", "object({ a = string })", "", "tuple([string, number])", "tuple([])", "tuple([  ])", "tuple([string,  ])"})
 		fmt.Fprintf(&g.sb, "variable %q {\n", name)
 		if typ != "" {
 			fmt.Fprintf(&g.sb, "  type = %s\n", typ)
